@@ -103,7 +103,25 @@ fn mutate_reframed(rng: &mut Rng, frame: &[u8]) -> Vec<u8> {
     crate::topic::frame(ctl, &body)
 }
 
+/// Header::new_with for every control byte (type nibble / flag table) and a few remaining lengths
+fn header_table<F: Fam>(out: &mut Out) {
+    for hd in 0..=255u8 {
+        let mut rows = Vec::new();
+        for rl in [0u32, 2, 127, 128, 268435455] {
+            let r = guarded(|| F::header_new_with(hd, rl));
+            rows.push(match r {
+                Err(m) => jpanic(&m),
+                Ok(Ok(h)) => jok(F::header_json(&h)),
+                Ok(Err(e)) => F::err_json(&e),
+            });
+        }
+        out.ev(json!({"ev": "HeaderRow", "fam": F::NAME, "hd": hd, "rls": [0, 2, 127, 128, 268435455], "rows": rows}));
+    }
+}
+
 pub fn record_strict(out: &mut Out, tier: &str, seed: u64) {
+    header_table::<V3>(out);
+    header_table::<V5>(out);
     let n = if tier == "thorough" { 9000 } else { 330 };
     let mut rng = Rng::new(seed ^ 0xC04);
     let mut b = Budget { big: 20, huge: 0 };
@@ -414,7 +432,8 @@ pub fn record_cross(out: &mut Out, tier: &str, seed: u64) {
         }
     }
     // protocol name / level table: every level with correct and corrupted names, both families, all front-ends
-    let names: [&[u8]; 7] = [b"MQTT", b"MQIsdp", b"MQTt", b"", b"MQTTT", &[0x4D, 0xFF, 0x54], b"mqtt"];
+    let names: [&[u8]; 10] = [b"MQTT", b"MQIsdp", b"MQTt", b"", b"MQTTT", &[0x4D, 0xFF, 0x54], b"mqtt",
+                              "xxxxxxxxx😀😀".as_bytes(), "ééééééééééééééééé".as_bytes(), "MQIsdp€€€€€€€€".as_bytes()];
     for nm in names {
         for level in 0..=255u8 {
             let mut body = crate::topic::field(nm);
